@@ -26,50 +26,54 @@ theorem nospace_of_ok {p : Str} (hp : checkStringOk p = true) : hasSpace p = fal
 variable (cfg : Config) (o : Oracle)
 
 /-- the world reached from `(st, log)` with free locks and no fault plan -/
-def calm (st : Store) (log : List Eff) : World := { st := st, lk := {}, fault := none, log := log }
+def calmL (l : List Str) (st : Store) (log : List Eff) : World :=
+  { st := st, lk := { objPid := l }, fault := none, log := log }
+
+/-- … with no lock held at all -/
+def calm (st : Store) (log : List Eff) : World := calmL [] st log
 
 /-! ### tag_object -/
 
-theorem tag_neither (st : Store) (log : List Eff) (p c : Str) (hp : checkStringOk p = true)
+theorem tag_neither (l : List Str) (st : Store) (log : List Eff) (p c : Str) (hp : checkStringOk p = true)
     (hc : checkStringOk c = true) (h1 : st.pidRefs.get (o.hId p) = none) (h2 : st.cidRefs.get c = none) :
-    (tagObject cfg o (.str p) (.str c)).run (calm st log) =
+    (tagObject cfg o (.str p) (.str c)).run (calmL l st log) =
       (.ok .unit,
-       calm { st with pidRefs := st.pidRefs.set (o.hId p) c, cidRefs := st.cidRefs.set c (p ++ ['\n']),
-                      dirs := (Area.cidRef, c) :: (Area.pidRef, o.hId p) :: st.dirs }
+       calmL l { st with pidRefs := st.pidRefs.set (o.hId p) c, cidRefs := st.cidRefs.set c (p ++ ['\n']),
+                          dirs := (Area.cidRef, c) :: (Area.pidRef, o.hId p) :: st.dirs }
          (log ++ [Eff.mkdirs Area.pidRef (o.hId p), Eff.mkdirs Area.cidRef c, Eff.mkTmp TmpArea.refs,
                   Eff.mkTmp TmpArea.refs, Eff.publishPidRef (o.hId p) c, Eff.publishCidRef c (p ++ ['\n'])])) := by
-  simp [calm, tagObject, storeRefs, runsimp, checkString_of_ok hp, checkString_of_ok hc, h1, h2, writeRefsTmp, verifyRefs, inRefs,
+  simp [calmL, tagObject, storeRefs, runsimp, checkString_of_ok hp, checkString_of_ok hc, h1, h2, writeRefsTmp, verifyRefs, inRefs,
     pyLines_single p (nospace_of_ok hp)]
 
-theorem tag_pid_only (st : Store) (log : List Eff) (p c x : Str) (hp : checkStringOk p = true)
+theorem tag_pid_only (l : List Str) (st : Store) (log : List Eff) (p c x : Str) (hp : checkStringOk p = true)
     (hc : checkStringOk c = true) (h1 : st.pidRefs.get (o.hId p) = some x) (h2 : st.cidRefs.get c = none) :
-    (tagObject cfg o (.str p) (.str c)).run (calm st log) =
+    (tagObject cfg o (.str p) (.str c)).run (calmL l st log) =
       (.error .pidRefsAlreadyExists,
-       calm { st with dirs := (Area.cidRef, c) :: (Area.pidRef, o.hId p) :: st.dirs }
+       calmL l { st with dirs := (Area.cidRef, c) :: (Area.pidRef, o.hId p) :: st.dirs }
          (log ++ [Eff.mkdirs Area.pidRef (o.hId p), Eff.mkdirs Area.cidRef c])) := by
-  simp [calm, tagObject, storeRefs, runsimp, checkString_of_ok hp, checkString_of_ok hc, h1, h2]
+  simp [calmL, tagObject, storeRefs, runsimp, checkString_of_ok hp, checkString_of_ok hc, h1, h2]
 
-theorem tag_both (st : Store) (log : List Eff) (p c x t : Str) (hp : checkStringOk p = true)
+theorem tag_both (l : List Str) (st : Store) (log : List Eff) (p c x t : Str) (hp : checkStringOk p = true)
     (hc : checkStringOk c = true) (h1 : st.pidRefs.get (o.hId p) = some x) (h2 : st.cidRefs.get c = some t) :
-    (tagObject cfg o (.str p) (.str c)).run (calm st log) =
+    (tagObject cfg o (.str p) (.str c)).run (calmL l st log) =
       (.error .hashStoreRefsAlreadyExists,
-       calm { st with dirs := (Area.cidRef, c) :: (Area.pidRef, o.hId p) :: st.dirs }
+       calmL l { st with dirs := (Area.cidRef, c) :: (Area.pidRef, o.hId p) :: st.dirs }
          (log ++ [Eff.mkdirs Area.pidRef (o.hId p), Eff.mkdirs Area.cidRef c])) := by
   by_cases hx : x = c
   · by_cases hin : inRefs p t = true
-    · simp [calm, tagObject, storeRefs, runsimp, checkString_of_ok hp, checkString_of_ok hc, h1, h2, verifyRefs, hx, hin]
-    · simp [calm, tagObject, storeRefs, runsimp, checkString_of_ok hp, checkString_of_ok hc, h1, h2, verifyRefs, hx, hin]
-  · simp [calm, tagObject, storeRefs, runsimp, checkString_of_ok hp, checkString_of_ok hc, h1, h2, verifyRefs, hx]
+    · simp [calmL, tagObject, storeRefs, runsimp, checkString_of_ok hp, checkString_of_ok hc, h1, h2, verifyRefs, hx, hin]
+    · simp [calmL, tagObject, storeRefs, runsimp, checkString_of_ok hp, checkString_of_ok hc, h1, h2, verifyRefs, hx, hin]
+  · simp [calmL, tagObject, storeRefs, runsimp, checkString_of_ok hp, checkString_of_ok hc, h1, h2, verifyRefs, hx]
 
 /-- the cid already has a well-formed list: the pid reference is written and the
     pid appended (or found already listed) -/
-theorem tag_cid_only (st : Store) (log : List Eff) (p c : Str) (ls : List Str) (hp : checkStringOk p = true)
+theorem tag_cid_only (l : List Str) (st : Store) (log : List Eff) (p c : Str) (ls : List Str) (hp : checkStringOk p = true)
     (hc : checkStringOk c = true) (h1 : st.pidRefs.get (o.hId p) = none)
     (h2 : st.cidRefs.get c = some (renderLines ls)) (hls : ∀ l ∈ ls, hasSpace l = false) (hnot : p ∉ ls) :
-    (tagObject cfg o (.str p) (.str c)).run (calm st log) =
+    (tagObject cfg o (.str p) (.str c)).run (calmL l st log) =
       (.ok .unit,
-       calm { st with pidRefs := st.pidRefs.set (o.hId p) c, cidRefs := st.cidRefs.set c (renderLines (ls ++ [p])),
-                      dirs := (Area.cidRef, c) :: (Area.pidRef, o.hId p) :: st.dirs }
+       calmL l { st with pidRefs := st.pidRefs.set (o.hId p) c, cidRefs := st.cidRefs.set c (renderLines (ls ++ [p])),
+                          dirs := (Area.cidRef, c) :: (Area.pidRef, o.hId p) :: st.dirs }
          (log ++ [Eff.mkdirs Area.pidRef (o.hId p), Eff.mkdirs Area.cidRef c, Eff.mkTmp TmpArea.refs,
                   Eff.publishPidRef (o.hId p) c, Eff.appendCid c (p ++ ['\n'])])) := by
   have hsp := nospace_of_ok hp
@@ -82,7 +86,7 @@ theorem tag_cid_only (st : Store) (log : List Eff) (p c : Str) (ls : List Str) (
     · simp at h; subst h; exact hsp
   have hin' : inRefs p (renderLines (ls ++ [p])) = true := by
     rw [inRefs_render p _ hls']; simp
-  simp [calm, tagObject, storeRefs, runsimp, checkString_of_ok hp, checkString_of_ok hc, h1, h2, writeRefsTmp, verifyRefs, updateRefsAdd, hin,
+  simp [calmL, tagObject, storeRefs, runsimp, checkString_of_ok hp, checkString_of_ok hc, h1, h2, writeRefsTmp, verifyRefs, updateRefsAdd, hin,
     renderLines_snoc, hin']
 
 end HS
